@@ -582,12 +582,13 @@ class CMRxReconDataset(Dataset):
                 self.logger.info("Attempting to load %s filenames from list(s).", len(filenames))
             else:
                 self.logger.info("Parsing directory %s for mat files.", self.root)
-                filenames = list(self.root.glob("*.mat"))
+                filenames = sorted(self.root.glob("*.mat"))
         else:
             self.logger.info("Attempting to load %s filenames.", len(filenames_filter))
             filenames = filenames_filter
 
-        filenames = [pathlib.Path(_) for _ in filenames]
+        # A file can only be one volume: drop repeated names (e.g. from overlapping lists), keeping the first.
+        filenames = list(dict.fromkeys(pathlib.Path(_) for _ in filenames))
 
         if len(filenames) == 0:
             warn = (
